@@ -75,6 +75,18 @@ func runStream(c StreamCase) *pbt.Result {
 	if !bytes.Equal(blob, concat) {
 		return pbt.Fail("ToBytesStep of %d steps (%d bytes) is not the concatenation of the individually encoded steps (%d bytes)", len(steps), len(blob), len(concat))
 	}
+	// the bytes handed out stay what they are while other profiles are encoded (a caller keeps them until they are sent)
+	if len(steps) > 0 {
+		rev := make([]step.Step, 0, len(steps))
+		for i := len(steps) - 1; i >= 0; i-- {
+			rev = append(rev, steps[i])
+		}
+		o1 := step.ToBytesStep(rev)
+		o2 := step.ToBytesStep(steps[:len(steps)/2])
+		if !bytes.Equal(blob, concat) {
+			return pbt.Fail("the %d bytes returned by ToBytesStep changed after two other profiles (%d and %d bytes) were encoded", len(blob), len(o1), len(o2))
+		}
+	}
 	// optionally carry the blob through one of the packs that embed step blobs
 	switch c.Via {
 	case "ProfilePack":
@@ -165,7 +177,7 @@ func sizeBucket(n int) string {
 
 var specStream = pbt.Register(pbt.Spec[StreamCase]{
 	Prop: "C08", Name: "step-stream",
-	Rule:  "lists of 0-60 steps over the 9 registered step types (HttpcStepX in versions 0,1,2,3) with every field filled from a rapid-drawn choice stream, encoded with ToBytesStep, optionally carried through ProfilePack / ProfileStepSplitPack / ErrorSnapPack1, decoded step by step; oracle = blob is the concatenation of the individual encodings, each ReadStep consumes exactly its own bytes and returns an equal step of the same type, nothing but a foreign trailing byte is left, re-encoding is identical; non-trivial = stream with >= 3 different step types; distinct by bytes",
+	Rule:  "lists of 0-60 steps over the 9 registered step types (HttpcStepX in versions 0,1,2,3) with every field filled from a rapid-drawn choice stream, encoded with ToBytesStep, optionally carried through ProfilePack / ProfileStepSplitPack / ErrorSnapPack1, decoded step by step; oracle = blob is the concatenation of the individual encodings and stays so while two other profiles are encoded, each ReadStep consumes exactly its own bytes and returns an equal step of the same type, nothing but a foreign trailing byte is left, re-encoding is identical; non-trivial = stream with >= 3 different step types; distinct by bytes",
 	Quick: 1800, Thorough: 120000,
 	Draw: func(t *rapid.T) StreamCase {
 		reg := gstep.Registered()
